@@ -138,8 +138,34 @@ theorem crash_prefix (rounds : List Round) (hok : FreshHist [] rounds)
     ∃ T m fs', Spec.Admissible [] (rounds.map Round.obs) T ∧
       recover cfgOfSource (afterRounds cfgOfSource (created cfgOfSource) rounds) = .ok (m, fs') ∧
       Spec.Content.same (content m fs'.pv) (Spec.run T) :=
-  crash_recover (cfg := cfgOfSource) source_ok.1 rounds [] (created cfgOfSource) [] created_closed (by simp [allNodes])
-    (histOK_of_fresh source_ok.2.2.2.1 rounds _ _ hok hc)
+  crash_recover (cfg := cfgOfSource) source_ok.1 source_ok.2.2.1 source_ok.2.1 rounds [] (created cfgOfSource) []
+    (Or.inl created_closed) (by simp [allNodes]) (histOK_of_fresh source_ok.2.2.2.1 rounds _ _ hok hc)
+
+/-- **C02 (all histories, including the creation)**: the same starting from files that do not
+    exist yet: the first `open` creates the database (page-file header and bitmap, catalog page,
+    the two reserved index roots — 36 I/O steps) and may die at ANY of these steps in ANY crash
+    mode, any number of times in a row: every crash image is a *nascent* database on which the
+    next `open` completes the creation (`Proofs/CrashCreate`), and from then on everything is as
+    in `crash_prefix`. -/
+theorem crash_prefix_creation (rounds : List Round) (hok : FreshHist [] rounds)
+    (hc : CondHist cfgOfSource ({} : FS) rounds) :
+    ∃ T m fs', Spec.Admissible [] (rounds.map Round.obs) T ∧
+      recover cfgOfSource (afterRounds cfgOfSource ({} : FS) rounds) = .ok (m, fs') ∧
+      Spec.Content.same (content m fs'.pv) (Spec.run T) :=
+  crash_recover (cfg := cfgOfSource) source_ok.1 source_ok.2.2.1 source_ok.2.1 rounds [] ({} : FS) []
+    (Or.inr ⟨rfl, nascent_empty⟩) (by simp [allNodes]) (histOK_of_fresh source_ok.2.2.2.1 rounds _ _ hok hc)
+
+/-- **C02 (creation, every step)**: `open` on a nascent database — never created, or cut short at
+    any step of an earlier creation — succeeds; after EVERY prefix of its I/O steps, in EVERY crash
+    mode, the page file is nascent again and the log is empty; the handle it returns satisfies the
+    invariant for the empty transaction list. -/
+theorem create_every_step {fs : FS} (hn : Nascent fs) :
+    (∀ n mode, Nascent ((fs.steps ((ioSteps (openA cfgOfSource fs.pv fs.wf)).take n)).crash mode)) ∧
+    ∃ m fs', recover cfgOfSource fs = .ok (m, fs') ∧ Spec.Content.same (content m fs'.pv) (Spec.run []) := by
+  obtain ⟨hfail, sa, _, hinv, _⟩ := create_safe (cfg := cfgOfSource) source_ok.2.2.1 source_ok.2.1 fs hn.flat.pj hn.flat.quiet hn.log hn.page
+  obtain ⟨o1, o2, o3⟩ := run_none (openA cfgOfSource fs.pv fs.wf) fs {}
+  exact ⟨fun n mode => ⟨crash_flat _ mode, (sa n mode).2, (sa n mode).1⟩,
+    _, _, by simp only [recover, o3, hfail, o1, o2], content_of_inv hinv⟩
 
 /-! non-vacuity: a concrete four-incarnation history that meets the hypotheses: a power loss in
     the middle of the node-table phase of a two-node commit (unsynced meta write persisted); a
@@ -162,6 +188,21 @@ example : (match recover cfgOfSource (afterRounds cfgOfSource (created cfgOfSour
     | .ok (m, fs) => some (content m fs.pv)
     | .error _ => none) =
     some ⟨[1001, 2001, 2002, 3001, 4001], [4000, 1000, 2000], [10000, 20000, 30000, 40000]⟩ := by decide
+
+/-! non-vacuity of the creation theorem: the process dies three times inside the creation of the
+    database (power loss at steps 10, 25 and 3 of the respective `open`, some unsynced writes kept),
+    the fourth incarnation completes it and commits -/
+def ex_creation : List Round :=
+  [⟨[], .inOpen 10, .power [.keep, .drop] 0 false⟩, ⟨[], .inOpen 25, .power [.drop, .keep, .keep] 0 false⟩,
+   ⟨[], .inOpen 3, .power [.drop, .keep, .keep] 0 false⟩, ⟨[.commit ex_tx1], .idle, .proc⟩]
+
+example : FreshHist [] ex_creation := by decide
+example : CondHist cfgOfSource ({} : FS) ex_creation := by decide
+example : (match recover cfgOfSource (afterRounds cfgOfSource ({} : FS) ex_creation) with
+    | .ok (m, fs) => some (content m fs.pv)
+    | .error _ => none) = some ⟨[1001], [1000], [10000]⟩ := by decide
+example : (afterRounds cfgOfSource ({} : FS) (ex_creation.take 2)).pd.hdr.catRoot = 3 ∧
+    (afterRounds cfgOfSource ({} : FS) (ex_creation.take 2)).pd.cat = some [4] := by decide
 
 /-! counterexamples -/
 
